@@ -299,7 +299,10 @@ class EncodeRows(Filter[Iterable[Union[Dense,Sparse]],Iterable[Union[Dense,Spars
         if isinstance(first,Dense):
             if isinstance(enc,abc.Mapping):
                 if hasattr(first, 'headers'):
-                    enc = [ enc.get(h, enc.get(i, lambda x:x)) for i,h in enumerate(first.headers) ]
+                    #headers is a mapping from name to index whose iteration order need not be the column order
+                    hdr = first.headers
+                    hdr = {i:h for h,i in hdr.items()} if isinstance(hdr,abc.Mapping) else dict(enumerate(hdr))
+                    enc = [ enc.get(hdr.get(i,i), enc.get(i, lambda x:x)) for i in range(len(first)) ]
                 else:
                     enc = [ enc.get(i, lambda x:x)             for i   in range(len(first))        ]
             return ( EncodeDense(row, enc) for row in rows )
@@ -398,8 +401,10 @@ class DropRows(Filter[Iterable[Union[Dense,Sparse]], Iterable[Union[Dense,Sparse
     def make_drop_row_args(first, drop_cols) -> Tuple:
         if isinstance(first,Dense):
             try:
-                selects = [ not any(i in drop_cols for i in I) for I in enumerate(first.headers) ]
+                #headers is a mapping from name to index whose iteration order need not be the column order
                 headers = first.headers.items()
+                dropped = {i for h,i in headers if h in drop_cols}
+                selects = [ i not in drop_cols and i not in dropped for i in range(len(first)) ]
                 indexes = list(compress(range(len(first)), selects))
             except:
                 selects = [ i not in drop_cols for i in range(len(first)) ]
